@@ -563,4 +563,5 @@ Definition wf_b (c : cat) : bool :=
   forallb (fun p => existsb (Z.eqb (rp_db p)) (map db_name (dbs c))) (pols c) &&
   forallb (refs_ok_b c) (pols c) &&
   forallb (default_ok_b c) (dbs c) &&
-  forallb (fun e => Z.of_nat (length (snd e)) =? ptnum c) (ptview c).
+  forallb (fun e => Z.of_nat (length (snd e)) =? ptnum c) (ptview c) &&
+  forallb (fun x => 0 <=? x) [max_sg c; max_sh c; max_ig c; max_ix c; max_mst c; max_node c; ptnum c].
